@@ -60,20 +60,42 @@ def _norm(node) -> str:
     return " ".join(unparse(node).split())[:90] if node is not None else "<missing>"
 
 
-def _ctor_returns(ctx, f, cls_q: str):
-    """(return stmt, constructor call) for every return whose value is built by `cls_q`."""
-    out = []
-    for r in [n for n in f.body_nodes() if isinstance(n, ast.Return) and n.value is not None]:
+def _result_returns(ctx, f, cls_q: str):
+    """Classify every result of `f`: `ctors` = (return stmt, constructor call) for each value built by `cls_q`;
+    `others` = (return stmt | None, value | None) for each result that is *not* such a construction (a value of
+    another shape, a bare `return`, or a path that falls off the end of the function).  `NotImplemented` is the
+    operator protocol's refusal, not a result.  The callers decide what `others` mean for their obligation: they
+    are reported against the obligation (never as an analysis error), because a path that does not build the
+    result from both operands is exactly what the duality clause excludes."""
+    g = f.cfg
+    ctors, others = [], []
+    for r in [n for n in f.body_nodes() if isinstance(n, ast.Return)]:
+        if not any(g.reachable(i) for i in g.ids_of(r)):
+            continue
+        if r.value is None:
+            others.append((r, None))
+            continue
         for o in origins(f, r.value):
             o = strip_await(o)
             if isinstance(o, ast.Name) and o.id == "NotImplemented":
                 continue
             if isinstance(o, ast.Call) and call_is(ctx.prog, f, o, cls_q):
-                out.append((r, o))
+                ctors.append((r, o))
             else:
-                ctx.require(False, f"C14: {f.qualname} returns `{_norm(o)}`, not a {cls_q.rsplit('.', 1)[-1]}(...) construction (shape not interpretable)")
-    ctx.require(bool(out), f"C14: {f.qualname} has no return building a {cls_q.rsplit('.', 1)[-1]}")
-    return out
+                others.append((r, o))
+    if any(k in ("n", "t", "f") and g.nodes[a].kind != "return" and g.reachable(a) for a, k in g.pred[g.exit]):
+        others.append((None, None))
+    ctx.require(bool(ctors or others), f"C14: {f.qualname} has no normal result at all (shape not interpretable)")
+    return ctors, others
+
+
+def _report_other_results(ctx, rule, f, others, label: str, what: str):
+    """Every result of `f` that is not a `what` construction violates `rule` (generic form, used where no finer
+    interpretation of the result is available)."""
+    for r, o in others:
+        text = _norm(o) if o is not None else ("<bare return>" if r is not None else "<falls off the end: None>")
+        ctx.ob(rule, f"{label}: every result is a {what}", False, func=f, node=r if r is not None else f.node, instance=f"{label}:result:{text}",
+               message=f"{label}: a path returns `{text}` instead of a {what}")
 
 
 def _binop_fact(f, expr):
@@ -184,6 +206,141 @@ def _reduce_call(ctx, f, expr):
 
 # =========================================================================== R1
 
+HW_FIELDS = ("cores", "memory", "storage")
+
+
+def _is_zero(e, field: str) -> bool:
+    if isinstance(e, ast.Constant) and isinstance(e.value, (int, float)) and not isinstance(e.value, bool):
+        return e.value == 0
+    if field == "storage":
+        if isinstance(e, ast.Dict) and not e.keys:
+            return True
+        if isinstance(e, ast.Call) and isinstance(e.func, ast.Name) and e.func.id == "dict" and not e.args and not e.keywords:
+            return True
+    return False
+
+
+def _positive_atom(f, owner: str, field: str):
+    """Guard atoms evaluated under the witness `owner.field is a positive amount` (cores / memory > 0; storage: a
+    non-empty map holding a disk of positive size).  Unrecognised atoms stay unknown (both branches are taken), so
+    `guarded_reach` over-approximates the paths such an operand can take."""
+
+    def is_field(e) -> bool:
+        e = strip_await(e)
+        if isinstance(e, ast.Call) and isinstance(e.func, ast.Name) and e.func.id in ("len", "bool", "float", "int", "abs") and len(e.args) == 1 and not e.keywords:
+            return is_field(e.args[0])
+        if field != "storage":
+            return dotted(e) == f"{owner}.{field}"
+        if isinstance(e, ast.Call) and isinstance(e.func, ast.Name) and e.func.id in ("any", "sum") and len(e.args) == 1 and isinstance(e.args[0], (ast.GeneratorExp, ast.ListComp)):
+            comp = e.args[0]
+            gen = comp.generators[0]
+            if len(comp.generators) != 1 or gen.ifs or not isinstance(gen.target, ast.Name):
+                return False
+            it = strip_await(gen.iter)
+            if not (isinstance(it, ast.Call) and isinstance(it.func, ast.Attribute) and it.func.attr == "values"):
+                return False
+            src = _operand(f, it)
+            size = f"{gen.target.id}.size"
+            cp = compare_pair(comp.elt)
+            positive = dotted(comp.elt) == size or (cp is not None and dotted(cp[0]) == size and isinstance(cp[1], (ast.Gt, ast.NotEq)) and _is_zero(cp[2], "size"))
+            return src is not None and src[0] == owner and positive
+        src = _operand(f, e)
+        return src is not None and src[0] == owner
+
+    def atom(e, depth: int = 4):
+        if isinstance(e, ast.Name):
+            defs = [o for o in origins(f, e) if o is not e]
+            if depth > 0 and len(defs) == 1 and not is_field(e):
+                return fold3(defs[0], lambda x: atom(x, depth - 1))
+        if is_field(e):
+            return True
+        cp = compare_pair(e)
+        if cp is not None and type(cp[1]) in _FLIP:
+            left, op, right = cp[0], type(cp[1]), cp[2]
+            if _is_zero(left, field) and is_field(right):
+                left, right, op = right, left, _FLIP[op]
+            if is_field(left) and _is_zero(right, field):
+                return {ast.Eq: False, ast.NotEq: True, ast.Gt: True, ast.GtE: True, ast.LtE: False, ast.Lt: False}[op]
+        return None
+
+    return atom
+
+
+def _unchanged_operand(o, names) -> str | None:
+    """The parameter that `o` denotes unchanged: `X`, `X.normalized()`, `copy.copy(X)` / `copy.deepcopy(X)`."""
+    o = strip_await(o)
+    if isinstance(o, ast.Name) and o.id in names:
+        return o.id
+    if isinstance(o, ast.Call) and not o.keywords:
+        fn = o.func
+        if isinstance(fn, ast.Attribute) and fn.attr == "normalized" and not o.args and isinstance(fn.value, ast.Name) and fn.value.id in names:
+            return fn.value.id
+        if (dotted(fn) or "") in ("copy.copy", "copy.deepcopy", "copy", "deepcopy") and len(o.args) == 1 and isinstance(o.args[0], ast.Name) and o.args[0].id in names:
+            return o.args[0].id
+    return None
+
+
+def _may_select(e, o, atom) -> bool:
+    """May the conditional expression `e` evaluate to its sub-expression `o` under `atom`? (conservative: True)"""
+    if isinstance(e, ast.Await):
+        return _may_select(e.value, o, atom)
+    if isinstance(e, ast.IfExp):
+        v = fold3(e.test, atom)
+        in_body = any(x is o for x in ast.walk(e.body))
+        in_else = any(x is o for x in ast.walk(e.orelse))
+        if in_body and not in_else:
+            return v is not False and _may_select(e.body, o, atom)
+        if in_else and not in_body:
+            return v is not True and _may_select(e.orelse, o, atom)
+    return True
+
+
+def _shortcut_results(ctx, f, name: str, want_op, me: str, other: str, ctors, others):
+    """Operator duality over *all* results: every result of Hardware.__add__/__sub__ is a Hardware(...) built from
+    both operands (checked field by field by the caller), except that an operand may be returned unchanged
+    (`X`, `X.normalized()`, a copy) on paths that the *dropped* operand can only take when its cores, memory and
+    storage are all empty.  Decided per field on the CFG: under the witness `dropped.field is a positive amount`
+    the guards are folded and the shortcut return must be unreachable.  So a fast path whose emptiness test forgets
+    a field (a storage-only subtrahend is then not subtracted: (a + r) - r != a), a result of another shape, a bare
+    `return` or a fall-through are violations of the duality clause, not uninterpretable shapes."""
+    g = f.cfg
+    label = f"Hardware.{name}"
+    verb = "added" if want_op is ast.Add else "subtracted"
+    bad: list[str] = []
+    witness: list[str] = []
+    node = None
+    for r, o in others:
+        if r is None or o is None:
+            bad.append("a path ends with a bare return / falls off the end (result None)")
+            node = node or r
+            continue
+        text = _norm(o)
+        kept = _unchanged_operand(o, (me, other))
+        if kept is None:
+            bad.append(f"a path returns `{text}`, which is not a Hardware(...) built from both operands")
+            node = node or r
+            continue
+        if want_op is ast.Sub and kept != me:
+            bad.append(f"a path returns `{text}` (the subtrahend) as the difference")
+            node = node or r
+            continue
+        dropped = other if kept == me else me
+        ids = set(g.ids_of(r))
+        lost = []
+        for field in HW_FIELDS:
+            atom = _positive_atom(f, dropped, field)
+            if guarded_reach(g, atom) & ids and _may_select(r.value, o, atom):
+                lost.append(field)
+        if lost:
+            bad.append(f"the path returning `{text}` is taken although `{dropped}` may hold a positive amount of {', '.join(lost)}: "
+                       f"{dropped}.{'/'.join(lost)} {'is' if len(lost) == 1 else 'are'} not {verb} on that path")
+            node = node or r
+            pth = g.path(g.entry, ids)
+            witness.extend(g.describe(pth) if pth else [])
+    n_short = len(others)
+    ctx.ob("R1", f"{label}: every result combines cores, memory and storage of both operands ({len(ctors)} construction(s), {n_short} shortcut(s))", not bad, func=f,
+           node=node if node is not None else f.node, instance=f"{label}:results", message=f"{label}: " + "; ".join(bad), witness=witness)
+
 
 def _hardware_operator(ctx, name: str, want_op, kind: str):
     p = ctx.prog
@@ -191,7 +348,9 @@ def _hardware_operator(ctx, name: str, want_op, kind: str):
     ctx.require(len(f.params) == 2, f"C14.R1: Hardware.{name} is not a binary operator any more")
     me, other = f.params
     init = p.func(f"{HW}.__init__").node
-    for r, call in _ctor_returns(ctx, f, HW):
+    ctors, others = _result_returns(ctx, f, HW)
+    _shortcut_results(ctx, f, name, want_op, me, other, ctors, others)
+    for r, call in ctors:
         args = bind_args(call, init, skip_self=True)
         for field in ("cores", "memory"):
             _check_field_op(ctx, "R1", f, args.get(field), field, want_op, me, other, f"Hardware.{name}")
@@ -218,7 +377,8 @@ def _storage_operator(ctx, name: str, want_op):
     ctx.require(len(f.params) == 2, f"C14.R1: Storage.{name} is not a binary operator any more")
     me, other = f.params
     init = p.func(f"{ST}.__init__").node
-    rets = _ctor_returns(ctx, f, ST)
+    rets, others = _result_returns(ctx, f, ST)
+    _report_other_results(ctx, "R1", f, others, f"Storage.{name}", "Storage(...) built from both operands")
     for r, call in rets:
         args = bind_args(call, init, skip_self=True)
         _check_field_op(ctx, "R1", f, args.get("size"), "size", want_op, me, other, f"Storage.{name}")
@@ -498,7 +658,22 @@ def r3(ctx):
     f = p.func(f"{HW}.normalized")
     me = f.params[0]
     init = p.func(f"{HW}.__init__").node
-    for r, call in _ctor_returns(ctx, f, HW):
+    ctors, others = _result_returns(ctx, f, HW)
+    # `self` (or a copy) is its own normal form exactly when is_normalized() holds: such a shortcut is accepted when
+    # the return is unreachable under the witness `self.is_normalized() is false`; any other result is a violation
+    def _not_normal(e, _me=me):
+        if isinstance(e, ast.Name):
+            defs = [o for o in origins(f, e) if o is not e]
+            return fold3(defs[0], _not_normal) if len(defs) == 1 else None
+        if isinstance(e, ast.Call) and isinstance(e.func, ast.Attribute) and e.func.attr == "is_normalized" and dotted(e.func.value) == _me and not e.args:
+            return False
+        return None
+
+    live = guarded_reach(f.cfg, _not_normal)
+    others = [(r, o) for r, o in others
+              if not (r is not None and o is not None and _unchanged_operand(o, (me,)) == me and not isinstance(r.value, ast.IfExp) and not (set(f.cfg.ids_of(r)) & live))]
+    _report_other_results(ctx, "R3", f, others, "normalized()", "Hardware(self.cores, self.memory, self._normalize_storage())")
+    for r, call in ctors:
         args = bind_args(call, init, skip_self=True)
         st = args.get("storage")
         ctx.ob("R3", "normalized() goes through _normalize_storage", st is not None and _operand(f, st) == (me, True), func=f, node=call, instance="normalized:storage",
@@ -581,6 +756,22 @@ VARIANTS = [
     V("_reduce_storages operator arguments swapped", FILE, RED, "operator(storage[disk.mount_point], disk)", "operator(disk, storage[disk.mount_point])", "R1"),
     V("_reduce_storages membership test inverted", FILE, RED, "if disk.mount_point in storage.keys():", "if disk.mount_point not in storage.keys():", "R1"),
     V("_reduce_storages first-seen size zero", FILE, RED, "size=disk.size", "size=0.0", "R1"),
+    V("__sub__ fast path forgets the storage (seeded C14/3)", FILE, HSUB, "return Hardware(self.cores - other.cores,",
+      "if not (other.cores or other.memory):\n        return self.normalized()\n    return Hardware(self.cores - other.cores,", "R1", control=True),
+    V("__sub__ fast path on zero cores and memory (comparisons, temporary)", FILE, HSUB, "return Hardware(self.cores - other.cores,",
+      "idle = other.cores == 0 and other.memory == 0\n    if idle:\n        return self\n    return Hardware(self.cores - other.cores,", "R1"),
+    V("__add__ fast path forgets the memory", FILE, HADD, "return Hardware(self.cores + other.cores,",
+      "if not other.cores and (not other._normalize_storage()):\n        return self.normalized()\n    return Hardware(self.cores + other.cores,", "R1"),
+    V("__sub__ returns the subtrahend when self is empty", FILE, HSUB, "return Hardware(self.cores - other.cores,",
+      "if not (self.cores or self.memory or self._normalize_storage()):\n        return other.normalized()\n    return Hardware(self.cores - other.cores,", "R1"),
+    V("__sub__ conditional expression forgets the storage", FILE, HSUB, "return Hardware(self.cores - other.cores,",
+      "return self.normalized() if not (other.cores or other.memory) else Hardware(self.cores - other.cores,", "R1"),
+    V("__sub__ delegates to an uninterpreted helper on one path", FILE, HSUB, "return Hardware(self.cores - other.cores,",
+      "if other.is_normalized():\n        return self.__add__(other)\n    return Hardware(self.cores - other.cores,", "R1"),
+    V("__sub__ falls off the end", FILE, HSUB, "return Hardware(self.cores - other.cores,",
+      "if self.cores >= other.cores:\n        return Hardware(self.cores - other.cores,", "R1"),
+    V("Storage.__sub__ fast path drops other's paths", FILE, SSUB, "return Storage(mount_point=self.mount_point,",
+      "if other.size == 0:\n        return self\n    return Storage(mount_point=self.mount_point,", "R1"),
     # ---- R2
     V("satisfies uses > for cores", FILE, SAT, "self.cores >= other.cores", "self.cores > other.cores", "R2", control=True),
     V("satisfies compares memory the wrong way", FILE, SAT, "self.memory >= other.memory", "self.memory <= other.memory", "R2"),
@@ -598,7 +789,21 @@ VARIANTS = [
     V("_reduce_storages keyed by bind", FILE, RED, "storage[disk.mount_point] = Storage(", "storage[disk.bind] = Storage(", "R3"),
     V("is_normalized any", FILE, f"{HW}.is_normalized", "return all((", "return any((", "R3"),
     V("new comparison operator on raw storage", FILE, HW, "def is_normalized(self)", "def __ge__(self, other):\n        return all((self.storage[k].size >= d.size for k, d in other.storage.items()))\n\n    def is_normalized(self)", "R3"),
+    V("normalized returns self unconditionally", FILE, f"{HW}.normalized", "return Hardware(cores=self.cores,",
+      "if self.cores:\n        return self\n    return Hardware(cores=self.cores,", "R3"),
     # ---- benign
+    V("__sub__ fast path on a completely empty subtrahend", FILE, HSUB, "return Hardware(self.cores - other.cores,",
+      "if not (other.cores or other.memory or other._normalize_storage()):\n        return self.normalized()\n    return Hardware(self.cores - other.cores,", None),
+    V("__sub__ fast path, emptiness in a temporary with comparisons", FILE, HSUB, "return Hardware(self.cores - other.cores,",
+      "nothing = other.cores == 0 and other.memory == 0 and (len(other._normalize_storage()) == 0)\n    if nothing:\n        return self.normalized()\n    return Hardware(self.cores - other.cores,", None),
+    V("__sub__ fast path as nested guards", FILE, HSUB, "return Hardware(self.cores - other.cores,",
+      "if not other.cores:\n        if other.memory <= 0 and (not any((d.size > 0 for d in other._normalize_storage().values()))):\n            return self.normalized()\n    return Hardware(self.cores - other.cores,", None),
+    V("__add__ returns other when self is completely empty", FILE, HADD, "return Hardware(self.cores + other.cores,",
+      "if not (self.cores or self.memory or self._normalize_storage()):\n        return other.normalized()\n    return Hardware(self.cores + other.cores,", None),
+    V("__sub__ conditional expression on a completely empty subtrahend", FILE, HSUB, "return Hardware(self.cores - other.cores,",
+      "return self.normalized() if not (other.cores or other.memory or other._normalize_storage()) else Hardware(self.cores - other.cores,", None),
+    V("normalized returns a copy when already in normal form", FILE, f"{HW}.normalized", "return Hardware(cores=self.cores,",
+      "if self.is_normalized():\n        return copy.deepcopy(self)\n    return Hardware(cores=self.cores,", None),
     V("keyword arguments in __add__", FILE, HADD, "return Hardware(self.cores + other.cores, self.memory + other.memory, _reduce_storages(",
       "return Hardware(memory=self.memory + other.memory, cores=self.cores + other.cores, storage=_reduce_storages(", None),
     V("temporaries in __sub__", FILE, HSUB, "return Hardware(self.cores - other.cores, self.memory - other.memory,",
